@@ -10,27 +10,27 @@ theorem tail_covered (ap td n : Bool) :
   cases ap <;> cases td <;> cases n <;> decide +kernel
 
 /-- the decisions of the tail, on Booleans -/
-theorem tail_core (ap td n : Bool) (aliases : List String) (kvs : List (String × Py)) (st : TailState) :
-    tailSrcB Generated.tail_aggGuard Generated.tail_outer Generated.tail_chain ap td n aliases kvs st =
-      (if n && !ap then runTAction aliases kvs st .unexpected else if n && ap && td then runTAction aliases kvs st .extras else st) := by
+theorem tail_core (ap td n : Bool) (names aliases : List String) (kvs : List (String × Py)) (st : TailState) :
+    tailSrcB Generated.tail_aggGuard Generated.tail_outer Generated.tail_chain ap td n names aliases kvs st =
+      (if n && !ap then runTAction names aliases kvs st .unexpected else if n && ap && td then runTAction names aliases kvs st .extras else st) := by
   cases ap <;> cases td <;> cases n <;> rfl
 
 /-- C01 / C02 (source tie): after the field loop, the errors and the values are those of the model's `finishObj` (before the
 `dependent_required` errors, which the source adds inside the loop: `fieldLoop_dep`) -/
-theorem tail_matches_source (ci : ClassInfo) (ap : Bool) (aliases : List String) (acc : FAcc) (kvs : List (String × Py)) :
-    let st := tailSrc Generated.tail_aggGuard Generated.tail_outer Generated.tail_chain ap (ci.kind == .typedDict) aliases kvs acc.count
+theorem tail_matches_source (ci : ClassInfo) (infos : List FieldInfo) (ap : Bool) (aliases : List String) (acc : FAcc) (kvs : List (String × Py)) :
+    let st := tailSrc Generated.tail_aggGuard Generated.tail_outer Generated.tail_chain ap (ci.kind == .typedDict) (infos.map (·.name)) aliases kvs acc.count
                 ⟨acc.errs, acc.vals, false⟩
     st.bad = false ∧
     st.errs = (if kvs.length != acc.count && !ap then addUnexpected (unexpectedKeys aliases kvs) acc.errs else acc.errs) ∧
     st.vals = (if kvs.length != acc.count && ap && ci.kind == .typedDict
-               then acc.vals ++ ((unexpectedKeys aliases kvs).filterMap (fun k => (lookupKey kvs k).map (fun v => (k, asVal v))))
+               then acc.vals ++ extraVals (infos.map (·.name)) aliases kvs
                else acc.vals) := by
   simp only [tailSrc, tail_core]
   cases (kvs.length != acc.count) <;> cases ap <;> cases (ci.kind == .typedDict) <;> simp [runTAction]
 
 /-- the parts taken as given -/
 theorem tail_pinned :
-    Generated.tail_aggSrc = "self.aggregate_fields = bool(self.flattened_fields or self.pattern_fields or self.additional_field is not None)" ∧
+    Generated.tail_aggSrc = "self.aggregate_fields = bool(self.flattened_fields or self.pattern_fields or self.additional_field is not None)\nself.field_names = {f.name for f in self.fields}" ∧
     Generated.tail_end = "elif field_errors or errors: raise ValidationError(errors or [], field_errors or {}) | return self.constructor.construct(values)" := by
   refine ⟨?_, ?_⟩ <;> decide +kernel
 
